@@ -10,7 +10,10 @@ executed on the real parser (a fresh `ArgumentParser` with one `--k` argument pe
                        a container is accepted iff a fresh parser for the element type accepts each element,
                        a Union is accepted iff a fresh parser for some member accepts the value;
   (iv)  order invariance  the accept/reject bit is the same for every permutation of the members of every
-                       Union node of the type hint (and a parser can be built for all of them or for none).
+                       Union node of the type hint (and a parser can be built for all of them or for none);
+  (vi)  default independence  (families of depth <= 1) the same argument declared with a conforming default
+                       decides exactly as without one, its results conform, and a parse that does not mention the
+                       key succeeds with a conforming value  (`judge_default`; cases carry a "default" key).
 
 A *case* is {"type": spec, "channel": "object" | "argv", "value": value-spec}; `run_case` rebuilds everything
 (type objects, parsers, values) from it.  Type specs are JSON: a leaf name or [constructor, arg, ...].
@@ -28,16 +31,20 @@ META = {
     "level": "exploration",
     "engine": "bounded exhaustive type-grammar x value product on the real parser (mc/checks/c02.py)",
     "technique": "exhaustive enumeration of type hints (grammar depth <= 4, every Union in every member order) x "
-    "candidate values (conforming, every single-position replacement, lookalike strings) x {parse_object, argv}; "
-    "independent conforms() validator + element-wise / member-wise / member-order differentials against fresh parsers",
+    "candidate values (conforming, every single-position replacement, lookalike strings) x {parse_object, argv} x "
+    "{no default, each listed conforming default (depth <= 1)}; independent conforms() validator + element-wise / "
+    "member-wise / member-order / with-vs-without-default differentials against fresh parsers",
     "level_text": "Every type hint of the stated grammar up to constructor depth 4 is combined with every candidate "
     "value of its alphabet (conforming values, the universal replacement alphabet at every single position, arity "
     "changes, lookalike strings) on both channels; each combination is executed on fresh parsers of the real "
     "implementation for every permutation of every Union, for every Union member and for every container element. "
     "Accepted results are judged by an independent structural validator written against the type spec only; "
     "acceptance decisions are judged differentially (container vs. elements, Union vs. members, permutation vs. "
-    "permutation), so no per-case expectation is hand-written. The verdict is exhaustive for the stated finite "
-    "space; nothing is sampled.",
+    "permutation), so no per-case expectation is hand-written. The families of depth <= 1 are explored a second "
+    "time with the argument declared with each listed conforming default (values: the family's candidates, the "
+    "default itself and every value that compares == to it but has another scalar kind at one position; plus a "
+    "parse that does not mention the key): every spelling must decide as it does without a default and results "
+    "must conform. The verdict is exhaustive for the stated finite space; nothing is sampled.",
     "level_note": "Trusted: the type-spec grammar and its builder (checked against typing.get_args after every "
     "build), the validators conforms()/shape_ok()/nullable() (~120 lines), the model of the NoneType member "
     "(accepts None and texts that YAML reads as null), json/yaml of the standard environment for rendering and "
@@ -411,8 +418,28 @@ def decode(v):
             return tuple(decode(x) for x in v["__tuple__"])
         if "__items__" in v:
             return {decode(k): decode(x) for k, x in v["__items__"]}
+        if "__set__" in v:
+            return {decode(x) for x in v["__set__"]}
+        if "__obj__" in v:
+            return leaf_object(*v["__obj__"])
         return {k: decode(x) for k, x in v.items()}
     return v
+
+
+def leaf_object(name, text):
+    """A Python object of a registered / path leaf type, built with the type's own constructor from the text of a
+    listed conforming input (used for declared defaults only, never as a parse input)."""
+    import base64
+    import datetime
+
+    if name == "timedelta":
+        h, m, sec = (int(x) for x in text.split(":"))
+        return datetime.timedelta(hours=h, minutes=m, seconds=sec)
+    if name == "bytes":
+        return base64.b64decode(text)
+    if name == "range":
+        return range(int(re.fullmatch(r"range\((\d+)\)", text).group(1)))
+    return leaf_types()[name](text)
 
 
 @functools.lru_cache(maxsize=None)
@@ -716,7 +743,10 @@ def profile(spec, tier):
     if tier == "thorough":
         return {"top": R_TOP + R_TOP_EXTRA, "texts": T_TOP, "tpl0": ("x", "cx", "xc"), "rich": d <= 3}
     if d <= 1:
-        texts = T_TOP if (is_leaf(spec) or spec[0] == "Union") else T_TOP[:6]
+        # the extra argv texts: all 16 for leaves and for Unions with at least one core member (or None), the first
+        # six for the other depth-1 types (containers; Unions of two non-core leaves - each of those leaves sees all
+        # 16 on its own and in its Unions with every core leaf)
+        texts = T_TOP if (is_leaf(spec) or (spec[0] == "Union" and leaves_of(spec) & (set(CORE) | {"none"}))) else T_TOP[:6]
         return {"top": R_TOP, "texts": texts, "tpl0": ("x", "cx", "xc"), "rich": False}
     return {"top": R_TOP2, "texts": T_TOP[:6], "tpl0": ("x", "cx") if d == 2 else ("x",), "rich": False}
 
@@ -731,6 +761,167 @@ def cases_for(spec, tier):
 
 
 # ------------------------------------------------------------------------------------------------
+# the "declared default" axis: the same argument declared with a conforming default value
+
+# conforming *result-side* values per leaf (exact Python type), usable as `default=` of the argument.  The numeric
+# ones are chosen so that a value of ANOTHER kind compares == to them (True == 1 == 1.0, False == 0 == 0.0).
+DEFAULTS = {
+    "str": ["a", "1", "null"],
+    "int": [1, 0, 2],
+    "float": [1.0, 0.5, 0.0],
+    "bool": [True, False],
+    "E": [{"__enum__": ["E", "A"]}],
+    "EY": [{"__enum__": ["EY", "null"]}],
+    "L1": [1, "a"],
+    "L2": [2, "1"],
+    "L3": [True, 0],
+    "PositiveInt": [1, 3],
+    "ClosedUnitInterval": [1.0, 0.5],
+    "RInt": [2],
+    "RFlt": [2.0, -1.0],
+    "Email": ["x@y.z"],
+    "RS": ["AB"],
+    "PPath": [{"__obj__": ["PPath", "a"]}],
+    "Path_fr": [{"__obj__": ["Path_fr", "/etc/passwd"]}],
+    "Path_dc": [{"__obj__": ["Path_dc", "/tmp"]}],
+    "complex": [{"__obj__": ["complex", "1+2j"]}],
+    "Decimal": [{"__obj__": ["Decimal", "1.5"]}, {"__obj__": ["Decimal", "1"]}],
+    "UUID": [{"__obj__": ["UUID", "12345678-1234-5678-1234-567812345678"]}],
+    "timedelta": [{"__obj__": ["timedelta", "1:02:03"]}],
+    "bytes": [{"__obj__": ["bytes", "YWJj"]}],
+    "range": [{"__obj__": ["range", "range(3)"]}],
+    "Any": [1, "a", True],
+}
+
+
+def defaults_for(spec, n):
+    """Up to n conforming defaults (encoded Python values of the exact result type) for an argument of this type.
+    `None` is never listed: it is the same as declaring no default."""
+    if is_leaf(spec):
+        return [] if spec == "none" else DEFAULTS[spec][:n]
+    c = spec[0]
+    if c == "Union":  # the first default(s) of every member: a default "belongs" to one member
+        out = []
+        for m in spec[1:]:
+            out += defaults_for(m, max(1, n // 2))
+        return dedupe(out)
+    ds = defaults_for(spec[1], 2)
+    d1, d2 = ds[0], ds[-1]
+    if c == "List":
+        return [[d1], [d1, d2]][:n]
+    if c == "Set":
+        return [{"__set__": [d1]}][:n]
+    if c == "TupleVar":
+        return [{"__tuple__": [d1]}, {"__tuple__": [d1, d2]}][:n]
+    if c == "Tuple":
+        return [{"__tuple__": [defaults_for(a, 1)[0] for a in spec[1:]]}][:n]
+    if c == "Dict":
+        return [{"a": d1}, {"a": d1, "b": d2}][:n]
+    if c == "DictInt":
+        return [{"__items__": [[1, d1]]}][:n]
+    raise AssertionError(spec)
+
+
+def as_input(d):
+    """The encoded default as a parse INPUT (JSON-like: lists stand for tuples / sets); None when it contains an
+    object without an input spelling."""
+    if isinstance(d, list):
+        xs = [as_input(x) for x in d]
+        return None if any(x is None for x in xs) else xs
+    if isinstance(d, dict):
+        if "__enum__" in d:
+            return d["__enum__"][1]
+        if "__obj__" in d:
+            return None
+        if "__tuple__" in d or "__set__" in d:
+            return as_input(d.get("__tuple__", d.get("__set__")))
+        if "__items__" in d:
+            items = [[k, as_input(x)] for k, x in d["__items__"]]
+            return None if any(x is None for _, x in items) else {"__items__": items}
+        out = {k: as_input(x) for k, x in d.items()}
+        return None if any(x is None for x in out.values()) else out
+    return d
+
+
+def scalar_twins(x):
+    """Values of another scalar kind that compare == to x in Python (the candidates for being confused with it)."""
+    if type(x) is bool:
+        return [int(x), float(x)]
+    if type(x) is int:
+        return ([bool(x)] if x in (0, 1) else []) + [float(x)]
+    if type(x) is float and x == int(x):
+        return ([bool(x)] if x in (0.0, 1.0) else []) + [int(x)]
+    if type(x) is str:  # the text of the string read as a scalar of another kind, when it is one
+        k = yaml_kind(x)
+        if k in ("bool", "int", "float"):
+            import yaml
+
+            return [yaml.safe_load(x)]
+    return []
+
+
+def twins(v):
+    """Every input equal to the (input form of the) default except for the kind of the scalar at ONE position."""
+    if isinstance(v, list):
+        return [v[:i] + [t] + v[i + 1 :] for i, x in enumerate(v) for t in twins(x)]
+    if isinstance(v, dict):
+        if "__items__" in v:
+            its = v["__items__"]
+            return [{"__items__": its[:i] + [[k, t]] + its[i + 1 :]} for i, (k, x) in enumerate(its) for t in twins(x)]
+        return [{**v, k: t} for k, x in v.items() for t in twins(x)]
+    return scalar_twins(v)
+
+
+def py_equal(a, b):
+    """Python == between a decoded input and a decoded default, lists standing for tuples / sets."""
+    try:
+        if isinstance(b, (tuple, set, frozenset)) and isinstance(a, list):
+            return len(a) == len(b) and (set(a) == b if isinstance(b, (set, frozenset)) else tuple(a) == b)
+        return bool(a == b)
+    except Exception:
+        return False
+
+
+def default_axis(spec, tier):
+    """The defaults with which the family is re-explored (empty: family not part of the default axis in this tier)."""
+    d = depth(spec)
+    core = set(CORE) | {"L1", "L3", "Any", "none"}
+    if tier == "thorough":
+        if d <= 1:
+            return defaults_for(spec, 3)
+        if d == 2 and (spec[0] in ("List", "Dict") or (spec[0] == "Union" and "none" in spec[1:] and len(spec) == 3)):
+            return defaults_for(spec, 1)
+        return []
+    if d == 0:
+        return defaults_for(spec, 2)
+    if d > 1:
+        return []
+    if spec[0] == "Union":
+        if len(spec) != 3:
+            return []
+        if "none" in spec[1:]:  # Optional[leaf], every leaf
+            return defaults_for(spec, 2 if leaves_of(spec) <= core else 1)
+        return defaults_for(spec, 2) if leaves_of(spec) <= core else []
+    if spec[0] == "Tuple":
+        return defaults_for(spec, 1) if (spec[2] == "int" and spec[1] in CORE) else []
+    return defaults_for(spec, 1) if spec[1] in CORE else []
+
+
+def default_cases_for(spec, tier, dflt):
+    """(channel, value) list for one declared default: the family's own candidate values, the default itself as an
+    input, its ==-twins of another scalar kind, and the absence of the key."""
+    prof = profile(spec, tier)
+    vals = variants(spec, 0, prof)
+    di = as_input(dflt)
+    if di is not None:
+        vals = dedupe(vals + [di] + twins(di))
+    out = [("absent", None)] + [("object", v) for v in vals]
+    texts = [t for t in map(render, vals) if t is not None] + list(prof["texts"] if tier == "thorough" else prof["texts"][:6])
+    out += [("argv", t) for t in dedupe(texts)]
+    return out
+
+
+# ------------------------------------------------------------------------------------------------
 # executing one (type, channel, value) on the real code
 
 _memo = {}
@@ -740,20 +931,21 @@ _stats = {"parses": 0}
 MEMO_CAP = 120_000
 
 
-def accept(spec, chan, v):
+def accept(spec, chan, v, dflt=None):
     """Outcome of ONE fresh parser for `spec` on one input.  Memoised per process: the evaluation is a pure function
     of its arguments (fresh type objects, fresh parser, freshly decoded value), and member / element parsers are
-    shared by many cases.  `run_case` starts from an empty memo."""
-    key = cj([spec, chan, v])
+    shared by many cases.  `run_case` starts from an empty memo.  `dflt` (encoded, never None) declares the argument
+    with that default; channel "absent" parses an input that does not mention the key."""
+    key = cj([spec, chan, v] if dflt is None else [spec, chan, v, dflt])
     hit = _memo.get(key)
     if hit is None:
         if len(_memo) >= MEMO_CAP:
             _memo.clear()
-        hit = _memo[key] = _accept(spec, chan, v)
+        hit = _memo[key] = _accept(spec, chan, v, dflt)
     return hit
 
 
-def _accept(spec, chan, v):
+def _accept(spec, chan, v, dflt=None):
     import jsonargparse
 
     from mc.core import HarnessError
@@ -761,15 +953,25 @@ def _accept(spec, chan, v):
 
     try:
         T = build_type(spec)
-        parser = jsonargparse.ArgumentParser(exit_on_error=False)
-        parser.add_argument("--k", type=T)
+        if dflt is not None:
+            d = decode(dflt)
+            if conforms(d, spec) is not None:
+                raise HarnessError(f"default {d!r} does not conform to {show(spec)}")
     except HarnessError:
         raise
+    try:
+        parser = jsonargparse.ArgumentParser(exit_on_error=False)
+        if dflt is None:
+            parser.add_argument("--k", type=T)
+        else:
+            parser.add_argument("--k", type=T, default=d)
     except Exception as ex:  # the parser cannot even be declared
         return {"bit": None, "err": f"{type(ex).__name__}: {ex}"[:300]}
     _stats["parses"] += 1
     if chan == "object":
         o = outcome(parser.parse_object, {"k": decode(v)})
+    elif chan == "absent":
+        o = outcome(parser.parse_object, {})
     else:
         o = outcome(parser.parse_args, ["--k=" + v])
     if o["kind"] == "ok":
@@ -1016,6 +1218,112 @@ def judge(case):
     return devs, facts
 
 
+def judge_default(case):
+    """The declared-default axis: the argument of `judge` declared with a conforming default.  A default does not
+    change what the type accepts, so every spelling must decide exactly as the same spelling without a default does
+    (that decision is itself judged by `judge` on the same (type, channel, value)), an accepted result must conform,
+    and when the key is absent the parse must succeed with a conforming value.  Only what DIFFERS from the
+    behaviour without a default is reported here (a defect that does not depend on the default has its own class)."""
+    spec, chan, v, dflt = case["type"], case["channel"], case["value"], case["default"]
+    devs = []
+    facts = {"accepted": False, "oracles": [], "twin": False}
+    plist = list(perms(spec))
+    facts["perms"] = len(plist)
+    outs = [accept(p, chan, v, dflt) for p in plist]
+    if any(o["bit"] is None for o in outs):
+        p, o = next((p, o) for p, o in zip(plist, outs) if o["bit"] is None)
+        if accept(p, "object", 1)["bit"] is not None:  # the same spelling can be declared without a default
+            devs.append(
+                (
+                    f"with-default:construct:fails:{top_kind(spec)}",
+                    f"{show(p)} cannot be declared with the conforming default {decode(dflt)!r}: {o['err']}",
+                )
+            )
+        return devs, facts
+    facts["accepted"] = any(o["bit"] for o in outs)
+    for o in outs:
+        if not o["bit"] and o.get("kind") != "ArgumentError":
+            facts["escape"] = o.get("err", "").split(":")[0][:60] or o.get("kind")
+    if chan == "absent":
+        facts["oracles"].append("dflt-absent")
+        for p, o in zip(plist, outs):
+            if not o["bit"]:
+                devs.append(
+                    (
+                        f"with-default:absent:rejects-the-conforming-default:{top_kind(spec)}",
+                        f"{show(p)} default={decode(dflt)!r}: a parse that does not mention the key fails: "
+                        f"{last_line(o.get('err', '')) or o.get('kind')}",
+                    )
+                )
+                break
+            tag = conforms(o["result"], spec)
+            if tag:
+                devs.append(
+                    (
+                        f"with-default:absent:unsound:{tag[0]}",
+                        f"{show(p)} default={decode(dflt)!r}: the key is absent and the result is {o['result']!r} "
+                        f"({type(o['result']).__name__})",
+                    )
+                )
+                break
+        return devs, facts
+    refs = [accept(p, chan, v) for p in plist]
+    if any(r["bit"] is None for r in refs):
+        return devs, facts  # reported by judge()
+    # does the input compare == to the declared default (or to its input spelling, e.g. the name of an Enum member)?
+    pd, di = decode(dflt), as_input(dflt)
+    alts = [pd] if di is None else [pd, decode(di)]
+    if chan == "object":
+        pv = decode(v)
+        equal = any(py_equal(pv, a) for a in alts)
+        same = equal and conforms(pv, spec) is None  # the default itself (exact types)
+    else:
+        import yaml
+
+        try:
+            pv = yaml.safe_load(v)
+        except Exception:
+            pv = v
+        equal = any(py_equal(pv, a) or py_equal(v, a) for a in alts)
+        same = False
+    eq = "equals-the-default" if equal else "differs-from-the-default"
+    facts["twin"] = equal and not same
+    facts["oracles"].append("dflt-decision")
+    for p, o, r in zip(plist, outs, refs):
+        if o["bit"] and not r["bit"]:
+            devs.append(
+                (
+                    f"with-default:accepts-what-the-type-rejects:{eq}:{vclass_in(chan, v)}",
+                    f"{show(p)} default={decode(dflt)!r} accepts {chan} {v!r} (-> {o['result']!r}, "
+                    f"{type(o['result']).__name__}); the same argument without a default rejects it: {last_line(r.get('err', ''))}",
+                )
+            )
+            break
+        if r["bit"] and not o["bit"]:
+            devs.append(
+                (
+                    f"with-default:rejects-what-the-type-accepts:{eq}:{vclass_in(chan, v)}",
+                    f"{show(p)} default={decode(dflt)!r} rejects {chan} {v!r}: {last_line(o.get('err', '')) or o.get('kind')}; "
+                    f"the same argument without a default accepts it (-> {r['result']!r})",
+                )
+            )
+            break
+    for p, o, r in zip(plist, outs, refs):
+        if o["bit"]:
+            facts["oracles"].append("dflt-sound")
+            tag = conforms(o["result"], spec)
+            if tag and not (r["bit"] and conforms(r["result"], spec)):
+                devs.append(
+                    (
+                        f"with-default:unsound:{eq}:{tag[0].split(':', 1)[1]}",
+                        f"{show(p)} default={decode(dflt)!r} {chan} {v!r} -> {o['result']!r} ({type(o['result']).__name__}): "
+                        f"does not conform ({tag[0]})",
+                    )
+                )
+                break
+    return devs, facts
+
+
 def last_line(text):
     return text.strip().splitlines()[-1].strip() if text and text.strip() else ""
 
@@ -1060,7 +1368,7 @@ def eclass(e):
 
 def run_case(case):
     _memo.clear()
-    devs, _ = judge(case)
+    devs, _ = judge_default(case) if "default" in case else judge(case)
     return [{"signature": s, "detail": d} for s, d in devs]
 
 
@@ -1120,7 +1428,8 @@ def grammar(tier):
     if tier == "quick":  # Tuple[., ...] / Dict[int, .] mirror List / Dict[str, .]: thorough tier only
         is_c = [x for x in is_c if x[0] not in ("TupleVar", "DictInt")]
     group("G2 Union of two int/str containers", [["Union", x, y] for x, y in itertools.combinations(is_c, 2)])
-    group("G2 Union triples with a container", [["Union", x, y, "none"] for x in is_c for y in ("str", "int")])
+    is_c3 = is_c if tier == "thorough" else [x for x in is_c if x[0] in ("List", "Dict")]  # quick: List / Dict[str,.] only
+    group("G2 Union triples with a container", [["Union", x, y, "none"] for x in is_c3 for y in ("str", "int")])
     # G_3 / G_4: int/str skeletons over {List, Dict[str,.], Tuple[.,.], Optional, Union}
     level = ["int", "str"]
     all_sk = {cj(family(s)) for s in level}
@@ -1171,6 +1480,18 @@ def work(item):
     }  # fmt: skip
     todo = cases_for(spec, tier)
     mid = None
+
+    def record(case, devs):
+        for sig, detail in devs:
+            size = len(cj(case))
+            old = res["devs"].get(sig)
+            if old is None:
+                res["devs"][sig] = [1, size, case, detail]
+            else:
+                old[0] += 1
+                if (size, cj(case)) < (old[1], cj(old[2])):
+                    old[1:] = [size, case, detail]
+
     for n, (chan, v) in enumerate(todo):
         case = {"type": spec, "channel": chan, "value": v}
         devs, facts = judge(case)
@@ -1186,15 +1507,29 @@ def work(item):
             res["nontrivial"] += 1
         for o in orc:
             res["oracles"][o] = res["oracles"].get(o, 0) + 1
-        for sig, detail in devs:
-            size = len(cj(case))
-            old = res["devs"].get(sig)
-            if old is None:
-                res["devs"][sig] = [1, size, case, detail]
-            else:
-                old[0] += 1
-                if (size, cj(case)) < (old[1], cj(old[2])):
-                    old[1:] = [size, case, detail]
+        record(case, devs)
+    # the declared-default axis (after the plain cases: their outcomes are the references and are memoised)
+    dstat = res["dflt"] = {
+        "families": 0, "defaults": 0, "cases": 0, "accepted": 0, "nontrivial": 0, "twins": 0, "twins_rejected": 0, "absent": 0,
+    }  # fmt: skip
+    for dflt in default_axis(spec, tier):
+        dstat["families"] = 1
+        dstat["defaults"] += 1
+        for chan, v in default_cases_for(spec, tier, dflt):
+            case = {"type": spec, "default": dflt, "channel": chan, "value": v}
+            devs, facts = judge_default(case)
+            dstat["cases"] += 1
+            dstat["accepted"] += bool(facts["accepted"])
+            dstat["absent"] += chan == "absent"
+            dstat["nontrivial"] += bool(facts["accepted"] or facts.get("twin"))
+            if facts.get("twin"):
+                dstat["twins"] += 1
+                dstat["twins_rejected"] += not facts["accepted"]
+            if facts.get("escape"):
+                res["escapes"][facts["escape"]] = res["escapes"].get(facts["escape"], 0) + 1
+            for o in set(facts["oracles"]):
+                res["oracles"][o] = res["oracles"].get(o, 0) + 1
+            record(case, devs)
     res["parses"] = _stats["parses"] - parses0
     res["sample"] = mid
     return res
@@ -1221,14 +1556,18 @@ def explore(ctx):
     oracles = {}
     escapes = {}
     per_depth = {}
+    dtot = {}
     for res in (r for rs in ctx.pmap(work_batch, [(b, ctx.tier) for b in batches], chunk=1) for r in rs):
         cases += res["cases"]
         parses += res["parses"]
         g = gstat[group_of[cj(res["spec"])]]
         g["cases"] += res["cases"]
         g["parses"] += res["parses"]
-        accepted += res["accepted"]
-        nontrivial += res["nontrivial"]
+        accepted += res["accepted"] + res["dflt"]["accepted"]
+        nontrivial += res["nontrivial"] + res["dflt"]["nontrivial"]
+        cases += res["dflt"]["cases"]
+        for k, n in res["dflt"].items():
+            dtot[k] = dtot.get(k, 0) + n
         typeperms += res["perms"]
         d = depth(res["spec"])
         per_depth[d] = per_depth.get(d, 0) + 1
@@ -1248,10 +1587,12 @@ def explore(ctx):
     ctx.cover(
         evaluations=cases,
         distinct_nontrivial=nontrivial,
-        rule="a case is one (type-hint family, channel, value); all cases are distinct by construction (values are "
-        "de-duplicated per family). Non-trivial = accepted by at least one member order (so the result went through "
-        "conforms()) or judged by the member-wise / element-wise differential with at least one member or element "
-        "parser consulted on a value it rejects or accepts differently from a plain kind mismatch",
+        rule="a case is one (type-hint family, declared default or none, channel, value); all cases are distinct by "
+        "construction (values are de-duplicated per family and default). Non-trivial = accepted by at least one member "
+        "order (so the result went through conforms()) or judged by the member-wise / element-wise differential with "
+        "at least one member or element parser consulted on a value it rejects or accepts differently from a plain "
+        "kind mismatch; for a case with a declared default: accepted, or the value compares == to the default without "
+        "being it (another scalar kind at one position)",
         states=cases,
         transitions=parses,
         traces_validated_against_impl=parses,
@@ -1261,6 +1602,12 @@ def explore(ctx):
         type_spellings=typeperms,
         families_per_depth={str(k): v for k, v in sorted(per_depth.items())},
         groups=gstat,
+        declared_default_axis={
+            **dtot,
+            "what": "families of depth <= 1 re-explored with the argument declared with each listed conforming default: "
+            "all candidate values of the family + the default as input + its ==-twins of another scalar kind, on "
+            "parse_object / argv, + a parse that does not mention the key",
+        },
         accepted_cases=accepted,
         rejected_cases=cases - accepted,
         cases_with_an_escaping_exception_counted_as_rejected=dict(sorted(escapes.items())),
@@ -1273,13 +1620,25 @@ def explore(ctx):
             "deep_alphabet": len(R_DEEP),
             "extra_argv_texts": len(T_TOP),
             "deviating_positions_per_value": 1,
+            "declared_defaults_per_family": "quick: 2 per leaf / core Optional / core Union pair, 1 per container over a "
+            "core leaf; thorough: up to 3 for every family of depth <= 1, 1 for List / Dict / Optional of depth 2",
         },
         trusted_base=["conforms()/shape_ok()/nullable() in mc/checks/c02.py", "typing.get_args", "json", "yaml.safe_load (classification only)"],
     )
     ctx.assume("top-level None means 'not given' for every type and is not a candidate value")
+    ctx.assume("a declared default does not change what the type accepts: the reference for a case with a default is the same spelling without one")
     ctx.assume("a string at a nested position is a value, a string at the top level is config text (YAML-loaded)")
     ctx.require(len(fams) > 500, "more than 500 type-hint families")
     ctx.require(accepted > 1000 and cases - accepted > 1000, "both accepted and rejected cases occur (> 1000 each)")
     for o in ("order", "sound", "complete", "member+", "member-", "element+", "element-", "kind+", "kind-"):
         ctx.require(oracles.get(o, 0) > 100, f"oracle branch '{o}' taken more than 100 times")
     ctx.require(per_depth.get(4, 0) > 0 and per_depth.get(3, 0) > 0, "types of depth 3 and 4 explored")
+    ctx.require(dtot.get("families", 0) >= 100 and dtot.get("cases", 0) > 5000, "declared-default axis: >= 100 families, > 5000 cases")
+    ctx.require(dtot.get("absent", 0) >= 100, "declared-default axis: key-absent parses")
+    ctx.require(
+        dtot.get("twins_rejected", 0) > 100 and dtot.get("twins", 0) - dtot.get("twins_rejected", 0) > 100,
+        "declared-default axis: values that compare == to the default without being it occur both rejected (wrong "
+        "kind) and accepted (e.g. int for a float default), > 100 each",
+    )
+    for o in ("dflt-decision", "dflt-sound", "dflt-absent"):
+        ctx.require(oracles.get(o, 0) >= 100, f"oracle branch '{o}' taken at least 100 times")
